@@ -195,6 +195,16 @@ def fault_op(rng: random.Random, snap: observe.Snap, ctx: Ctx):
         if ctx.sut.restarts >= ctx.profile["max_restarts"]:
             return None, None
         k = G.wpick(rng, ctx.profile["restart_kinds"])
+        if k == "restart_swap_register":
+            # same qubit ids, two atoms trade places: anything keyed by qubit id
+            # that should follow the atom's POSITION (detuning-map weights) must move
+            reg = ctx.sut.world["register"]
+            if len(reg["ids"]) < 2 or reg.get("mappable"):
+                return None, None
+            a, b = rng.sample(range(len(reg["ids"])), 2)
+            coords = [list(c) for c in reg["coords"]]
+            coords[a], coords[b] = coords[b], coords[a]
+            return "restart/swap_register", {"op": "switch_register", "register": dict(reg, coords=coords)}
         op = {"op": k}
         if k == "restart_abstract":
             op["skip"] = rng.random() < 0.7
